@@ -36,7 +36,7 @@ func init() {
 
 func runC20(c *mon.Ctx) {
 	runC20Long(c)
-	n := c.Pick(120, 1500)
+	n := c.Pick(300, 2000)
 	for i := int64(0); i < n; i++ {
 		if !c.Mine("streams", i) {
 			continue
@@ -51,9 +51,24 @@ func runC20(c *mon.Ctx) {
 				break
 			}
 		}
+		if i%3 == 2 {
+			// a capture cut in the middle of a packet: the truncated tail is end of stream and must leave no residue either
+			s = &gen.Stream{Units: s.Units, Packets: s.Packets, Owner: s.Owner, Bytes: append(append([]byte{}, s.Bytes...), s.Bytes[:1+r.IntN(187)]...)}
+			c.Count("streams_with_truncated_final_packet")
+		}
+		// options must survive a rewind as well: half of the streams run with a (stateless) packet skipper
+		var skipper astits.PacketSkipper
+		if i%2 == 1 && len(m.PIDs) > 1 {
+			sk := m.PIDs[int(i/2)%len(m.PIDs)]
+			if sk == 0 {
+				sk = m.PIDs[len(m.PIDs)-1]
+			}
+			skipper = func(p *astits.Packet) bool { return p.Header.PID == sk }
+			c.Count("streams_with_skipper")
+		}
 		for _, api := range []string{"data", "packet", "alt"} {
 			for _, ps := range []int{188, 0} {
-				cfg := DemuxCfg{PacketSize: ps, Reader: "seek", API: api}
+				cfg := DemuxCfg{PacketSize: ps, Reader: "seek", API: api, Skipper: skipper}
 				fresh := RunDemux(s.Bytes, cfg)
 				if fresh.Panic != "" {
 					c.Violate("C20/fresh-run-panic", "streams", i, fresh.Panic, nil)
